@@ -5,6 +5,7 @@ import PaletteModel.TransferDriver
 import PaletteModel.ClampDriver
 import PaletteModel.ConvDriver
 import PaletteModel.SoaDriver
+import PaletteModel.RouteDriver
 
 open Proto
 
@@ -14,6 +15,7 @@ def dispatch (op : String) (cfg inp outp : List String) : Verdict :=
   | "clamp" | "clamphwb" => Clamp.handle op cfg inp outp
   | "soa" => Soa.handle cfg inp outp
   | "soatypes" => Soa.handleTypes inp
+  | "routecmp" => Route.handle cfg inp outp
   | "conv" => Conv.handle cfg inp outp
   | "curve" => Transfer.handle cfg inp outp
   | "lutenc" | "lutdec" | "lutenc16" | "lutdec16" => Lut.handle op cfg inp outp
@@ -39,9 +41,14 @@ partial def loop (h : IO.FS.Stream) (acc : DrvAcc) : IO DrvAcc := do
   if line.isEmpty then loop h acc else
   let secs := sections line
   let (op, cfg, inp, outp) := match secs with
+    | (op :: cfg) :: inp :: outp :: extra :: _ => (op, cfg, inp, outp ++ ["|"] ++ extra)
     | (op :: cfg) :: inp :: outp :: _ => (op, cfg, inp, outp)
     | (op :: cfg) :: inp :: [] => (op, cfg, inp, [])
+    | (op :: cfg) :: [] => (op, cfg, [], [])
     | _ => ("", [], [], [])
+  if op == "routes" then
+    for l in Route.dumpRoutes do IO.println l
+    return ← loop h acc
   let acc := { acc with lines := acc.lines + 1 }
   match dispatch op cfg inp outp with
   | .agree tags =>
